@@ -53,7 +53,9 @@ POSITIONS = ["noname-path", "noname-remote-path", "selector-error", "url-redirec
              "linkfile-name", "linkfile-abstract", "linkfile-path", "linkfile-urlpath", "linkfile-host", "map-desc", "map-sel",
              "map-url", "map-host", "wap-text", "search-item-path", "keywords-sidecar",
              "url-dirname", "url-filename", "linkfile-url-noscheme", "map-url-noscheme", "subject-qenc", "subject-b64",
-             "map-type", "linkfile-type", "cap-type", "dir-search"]
+             "map-type", "linkfile-type", "cap-type", "dir-search",
+             # request HEADER values (Host, User-Agent, Referer, Accept-Language) of a directory request
+             "request-header"]
 HTML_FORMS = ["http", "https", "wap", "waphdr"]
 GP_FORMS = ["gdollar", "gbang"]
 GP_POSITIONS = {"filename", "html-title", "subject", "subject-qenc", "subject-b64", "abstract-sidecar", "linkfile-name", "linkfile-abstract", "map-desc",
@@ -66,7 +68,7 @@ def _case(draw):
     forms = HTML_FORMS + (GP_FORMS if pos in GP_POSITIONS else [])
     if pos == "wap-text":
         forms = ["wap", "waphdr"]
-    if pos == "dir-search":
+    if pos in ("dir-search", "request-header"):
         forms = ["http", "https", "wap", "waphdr"]
     return {"pos": pos, "payload": _pq(draw(payload_st), draw(st.sampled_from([0, 0, 0, 0, 0, 0, 1, 2]))),
             "form": draw(st.sampled_from(forms)), "n": draw(st.integers(0, 999)),
@@ -117,6 +119,9 @@ def _fit(pos, p, fam):
         return p or None
     if pos in ("selector-error", "url-redirect"):
         return p.replace("\0", "")
+    if pos == "request-header":
+        p = re.sub(r"[\r\n\0]", "", p).strip()  # (a header value ends at the line end)
+        return p or None
     return p
 
 
@@ -227,6 +232,10 @@ def _fetch(pos, v, n, form, fill=0):
             line, rest = req.split(b"\r\n", 1)
             meth, path, ver = line.split(b" ")
             req = meth + b" " + path + b"?searchrequest=" + world.b(v) + b" " + ver + b"\r\n" + rest
+        if pos == "request-header":
+            hv = world.b(v)
+            req = req.replace(b"Host: gopher.example\r\n", b"Host: " + hv + b"\r\nUser-Agent: " + hv + b"\r\nReferer: " + hv +
+                              b"\r\nAccept-Language: " + hv + b"\r\n")
         r = drive.serve(cfg, req, tls=tls)
         return r
     finally:
